@@ -105,7 +105,56 @@ CONTEXTS = [
     lambda body: "try:\n" + indent(body) + "finally:\n    pass\n",
     lambda body: "async def co() -> None:\n" + indent(body),
     lambda body: "with open('f') as fh:\n" + indent(body),
+    # code guarded by the running version: mypy decides from the TARGET version which branch is reachable — both branches are
+    # still the user's code, and what refurb says about them must not shrink when the target is raised
+    lambda body: "import sys\nif sys.version_info >= (3, 9):\n" + indent(body) + "else:\n" + indent(body),
+    lambda body: "import sys\nif sys.version_info < (3, 10):\n" + indent(body) + "else:\n" + indent(body),
+    lambda body: "import sys\nif sys.version_info >= (3, 11):\n    pass\nelse:\n" + indent(body),
 ]
+
+
+def line_dead_under(src: str, line: int, v: tuple[int, int]) -> bool:
+    """is `line` inside a branch of an `if sys.version_info <op> (3, N):` statement that cannot run under version v?
+    (mypy decides the same from the target version and does not analyse such a branch at all)"""
+    import ast as _ast
+
+    try:
+        tree = _ast.parse(src)
+    except SyntaxError:
+        return False
+    for n in _ast.walk(tree):
+        if not isinstance(n, _ast.If) or not isinstance(n.test, _ast.Compare) or len(n.test.ops) != 1:
+            continue
+        left, right = n.test.left, n.test.comparators[0]
+        if not (isinstance(left, _ast.Attribute) and left.attr == "version_info" and isinstance(right, _ast.Tuple)):
+            continue
+        try:
+            bound = tuple(int(e.value) for e in right.elts)  # type: ignore[attr-defined]
+        except Exception:  # noqa: BLE001
+            continue
+        op = type(n.test.ops[0])
+        truth = {_ast.GtE: v >= bound, _ast.Gt: v > bound, _ast.Lt: v < bound, _ast.LtE: v <= bound}.get(op)
+        if truth is None:
+            continue
+        dead = n.orelse if truth else n.body
+        first = min([dead[0].lineno] + [d_.lineno for d_ in getattr(dead[0], "decorator_list", [])]) if dead else 0
+        if dead and first <= line <= max(getattr(x_, "end_lineno", x_.lineno) for x_ in dead):
+            return True
+    return False
+
+
+def version_guard_file() -> str:
+    """one always-present file: an ordinary idiom (FURB108, FURB123) and the version-dependent ones in BOTH branches of a guard
+    for every minor version of the sweep"""
+    parts = ["import sys\n", PREAMBLE]
+    for k, minor in enumerate(range(7, 14)):
+        body = (
+            f"va{k} = n1 == 1 or n1 == 2\nvb{k} = int(n1)\nvc{k} = s1[3:] if s1.startswith(\"abc\") else s1\n"
+            f"vd{k} = {{**d1, **d2}}\nve{k} = bin(n1).count(\"1\")\nvf{k} = isinstance(o1, int) or isinstance(o1, str)\n"
+        )
+        parts.append(f"if sys.version_info >= (3, {minor}):\n" + indent(body) + "else:\n" + indent(body.replace("v", "w")))
+        parts.append(f"if sys.version_info < (3, {minor}):\n" + indent(body.replace("v", "x")))
+    return "\n".join(parts)
 
 
 def indent(text: str) -> str:
@@ -130,6 +179,7 @@ def generated_idioms(rng: Any, n_files: int) -> dict[str, str]:
                 imports.append(imp)
             chunks.append(rng.choice(CONTEXTS)(body))
         out[f"gen_{k:03d}.py"] = "\n".join(imports) + "\n\n" + PREAMBLE + "\n".join(chunks)
+    out["gen_vguard.py"] = version_guard_file()
     return out
 
 
@@ -706,9 +756,10 @@ def run(ctx) -> None:
                 if e is None:
                     res.bump("diagnostic_lost_when_raising" + ("" if in_range else "_below_3.7"))
                     if in_range:
+                        where = "dead-version-guard-branch" if line_dead_under(by_name[fname]["src"], line, hi) and not line_dead_under(by_name[fname]["src"], line, lo) else "live-code"
                         res.violate(
-                            f"{code} at {by_name[fname]['origin']}:{line} is reported under {vstr(lo)} and not under {vstr(hi)}",
-                            {"kind": "diagnostic-lost-when-raising-target", "check": code, "from": vstr(lo), "to": vstr(hi)},
+                            f"{code} at {by_name[fname]['origin']}:{line} is reported under {vstr(lo)} and not under {vstr(hi)} ({where})",
+                            {"kind": "diagnostic-lost-when-raising-target", "check": code, "where": where, "from": vstr(lo), "to": vstr(hi)},
                             {**base, "observed_higher": "nothing at that site", "required": "the diagnostic stays (or switches to a newer spelling)"},
                         )
                 else:
